@@ -78,7 +78,7 @@ func (in *Interp) packagePolicy(fn *ssa.Function, args []Value, pos token.Pos) (
 	switch p {
 	case "fmt", "reflect", "runtime", "os", "log", "regexp", "encoding/json", "sync", "sync/atomic", "unsafe", "syscall", "internal/reflectlite", "github.com/cosmos/gogoproto/proto", "github.com/cosmos/gogoproto/jsonpb", "google.golang.org/protobuf/proto":
 		if in.lenient > 0 {
-			return zeroResult(fn.Signature), true
+			return Tainted{Why: "no model for " + fn.String()}, true
 		}
 		in.unsupp("no model for %s", fn.String())
 	}
@@ -640,4 +640,71 @@ func init() {
 			return &SymStr{Desc: "coins"}
 		})
 	}
+}
+
+func init() {
+	// JSON text is formatting: modelled as an opaque but concrete placeholder
+	reg("encoding/json.Marshal", func(in *Interp, fn *ssa.Function, a []Value, pos token.Pos) Value {
+		return tup(sliceOfBytes([]byte(`{"json":"opaque"}`)), Iface{})
+	})
+}
+
+func init() {
+	// regular expressions on concrete strings: use the real engine
+	mkRe := func(in *Interp, fn *ssa.Function, a []Value, pos token.Pos) Value {
+		re, err := regexp.Compile(strOf(in, a[0]))
+		if err != nil {
+			in.goPanic(pos, "regexp: Compile: "+err.Error(), nil)
+		}
+		p := new(Value)
+		*p = &Opaque{Kind: "regexp", Data: re}
+		return p
+	}
+	reg("regexp.MustCompile", mkRe)
+	reOf := func(in *Interp, v Value) *regexp.Regexp {
+		p, ok := v.(*Value)
+		if !ok || p == nil {
+			in.unsupp("regexp receiver %T", v)
+		}
+		op, ok := (*p).(*Opaque)
+		if !ok || op.Kind != "regexp" {
+			in.unsupp("regexp receiver content %T", *p)
+		}
+		return op.Data.(*regexp.Regexp)
+	}
+	reg("(*regexp.Regexp).MatchString", func(in *Interp, fn *ssa.Function, a []Value, pos token.Pos) Value {
+		return BoolConst(reOf(in, a[0]).MatchString(strOf(in, a[1])))
+	})
+	reg("(*regexp.Regexp).Match", func(in *Interp, fn *ssa.Function, a []Value, pos token.Pos) Value {
+		b, ok := bytesOf(a[1].(Slice).V)
+		if !ok {
+			in.unsupp("regexp match on symbolic bytes")
+		}
+		return BoolConst(reOf(in, a[0]).Match(b))
+	})
+	reg("(*regexp.Regexp).FindStringSubmatch", func(in *Interp, fn *ssa.Function, a []Value, pos token.Pos) Value {
+		m := reOf(in, a[0]).FindStringSubmatch(strOf(in, a[1]))
+		if m == nil {
+			return Slice{}
+		}
+		out := make([]Value, len(m))
+		for i, s := range m {
+			out[i] = s
+		}
+		return Slice{out}
+	})
+	// codec construction in package initialisers
+	reg("github.com/cosmos/cosmos-sdk/codec.NewProtoCodec", func(in *Interp, fn *ssa.Function, a []Value, pos token.Pos) Value {
+		p := new(Value)
+		*p = zero(fn.Signature.Results().At(0).Type().(*types.Pointer).Elem())
+		return p
+	})
+	reg("github.com/cosmos/cosmos-sdk/codec/types.NewInterfaceRegistry", func(in *Interp, fn *ssa.Function, a []Value, pos token.Pos) Value {
+		return opIface("interface-registry", nil)
+	})
+	reg("github.com/cosmos/cosmos-sdk/codec.NewLegacyAmino", func(in *Interp, fn *ssa.Function, a []Value, pos token.Pos) Value {
+		p := new(Value)
+		*p = zero(fn.Signature.Results().At(0).Type().(*types.Pointer).Elem())
+		return p
+	})
 }
